@@ -90,3 +90,4 @@ UNITS.append(dispatch_unit("C10"))
 from contracts.share import shared  # noqa: E402
 UNITS += shared("C10", "contracts.c06", 'ArgumentParser.validate.<locals>.check_values')
 UNITS += shared("C10", "contracts.c04", 'ArgumentParser.parse_object')
+UNITS += shared("C10", "contracts.c20", "RegisteredType.is_value_of_type")
